@@ -60,3 +60,23 @@ func TestRecordedMakeNormalised(t *testing.T) {
 		}
 	}
 }
+
+// C17 CMPNAME: the name of compression scheme 65535 was a garbled literal.
+func TestConfirmCompressionNames(t *testing.T) {
+	if got := meta.Compression(65535).String(); got != "Pentax PEF Compressed" {
+		t.Errorf("Compression(65535) = %q", got)
+	}
+}
+
+// C16 UTSET: ExposureBias.UnmarshalText accepted "0/0" (the text of the zero value) without assigning, so the zero
+// value did not survive a round trip into a variable that was in use.
+func TestConfirmExposureBiasZeroIntoUsedVariable(t *testing.T) {
+	txt, err := meta.ExposureBias(0).MarshalText()
+	if err != nil {
+		t.Fatal(err)
+	}
+	eb := meta.ExposureBias(0x0103)
+	if err := eb.UnmarshalText(txt); err != nil || eb != 0 {
+		t.Errorf("UnmarshalText(%q) into a used variable: %v, err=%v, want 0", txt, eb, err)
+	}
+}
